@@ -19,6 +19,7 @@ pub mod gen;
 pub mod gsyn;
 pub mod gprog;
 pub mod gprog_gen;
+pub mod gprog_matrix;
 pub mod gprog_run;
 pub mod gprog_check;
 pub mod known;
